@@ -1,4 +1,7 @@
 #include "world.hpp"
+#ifdef COSIM_VALGRIND
+#include <valgrind/memcheck.h>
+#endif
 
 namespace sim {
 
@@ -224,7 +227,15 @@ std::vector<uint8_t> World::image(int slot) {
 // ------------------------------------------------------------------ operations
 // Uninitialised stack reads inside the stack (e.g. frame bytes beyond the DLC) must not make a run depend on what the
 // harness left on the stack: overwrite the region below the current frame with a constant pattern before entering the stack.
-__attribute__((noinline)) void paint_stack() { volatile uint8_t pad[24576]; for (size_t i = 0; i < sizeof pad; i += 8) *(volatile uint64_t *)(pad + i) = 0xA5A5A5A5A5A5A5A5ull; }
+// Fills the stack below the caller with a fixed pattern so that a read of an uninitialised local by the code under test cannot make a
+// run depend on what ran before (determinism). In the valgrind build (COSIM_VALGRIND) the painted area is then declared undefined again,
+// so memcheck still reports a decision that depends on such a byte.
+__attribute__((noinline)) void paint_stack() {
+    volatile uint8_t pad[24576]; for (size_t i = 0; i < sizeof pad; i += 8) *(volatile uint64_t *)(pad + i) = 0xA5A5A5A5A5A5A5A5ull;
+#ifdef COSIM_VALGRIND
+    VALGRIND_MAKE_MEM_UNDEFINED((const void *)pad, sizeof pad);
+#endif
+}
 void World::paint_stack_hook() { paint_stack(); }
 void World::rx(int slot, const Frame &f) {
     Slot &S = s[slot];
